@@ -255,7 +255,7 @@ def _stream_ops(rng, paths, nstreams, nops, texts=None):
             head, _, tail = chosen[i].rpartition("/")
             chosen[i] = head + rng.choice(["//", "/./"]) + tail
         r = rng.random()
-        cons = {"k": "drain"} if r < 0.62 else {"k": "take", "n": rng.randint(0, 6), "close": rng.random() < 0.5} if r < 0.9 else \
+        cons = {"k": "drain"} if r < 0.62 else {"k": "take", "n": rng.randint(0, 6), "close": rng.random() < 0.5, "throw": rng.random() < 0.2} if r < 0.9 else \
             {"k": "zip", "order": [rng.randrange(6) for _ in range(rng.randint(0, 40))]}
         op = {"op": "stream", "s": rng.randrange(nstreams), "paths": chosen, "consumer": cons}
         if nstreams > 1 and cons["k"] == "drain" and rng.random() < 0.25:
@@ -394,7 +394,7 @@ class C17(Prop):
                     k = "cli"
                 else:
                     c = op.get("consumer") or {"k": "drain"}
-                    k = c["k"] + ("_close" if c.get("close") else "_drop" if c["k"] == "take" else "_interleaved_generators_of_one_stream" if c["k"] == "zip" else "")
+                    k = c["k"] + ("_throw" if c.get("throw") else "_close" if c.get("close") else "_drop" if c["k"] == "take" else "_interleaved_generators_of_one_stream" if c["k"] == "zip" else "")
                 cons[k] = cons.get(k, 0) + 1
         if spec.get("faults"):
             for f in spec["faults"]:
